@@ -139,13 +139,29 @@ def run(pid, tier):
     for (j, rc, o) in crashes:
         p = V.save_replay(pid, 'crash-%s.log' % os.path.basename(j[0]), o)
         vio_out.append(('driver aborted / sanitizer report (rc=%d) on %s' % (rc, j[0]), p))
+    # session loss as a cause of deregistration: stream (TCP) observers of the session driver, one to three observations of one resource on a
+    # connection that goes away, judged by Trace_Sessions (the observer list libcoap keeps must not refer to the lost session any more)
+    import sessions as S
+    lcases, lid = [], [0]
+
+    def lcase(ops, timeout=0, maxidle=0, tcp=0):
+        lid[0] += 1
+        lcases.append((lid[0], ['X id=%d timeout=%d maxidle=%d tcp=%d' % (lid[0], timeout, maxidle, tcp)] + list(ops) + ['E']))
+    for to in (1, 10):
+        S.obs_loss(lcase, to)
+    lout = os.path.join(out, 'loss')
+    os.makedirs(lout, exist_ok=True)
+    sdrv = V.link('drv_sess', ['drv_sess.c', 'simnet.c'], S.WRAPS)
+    lvio, lexec, _k, _r = V.drive_and_validate(pid, sdrv, lcases, lout, 'Trace_Sessions', xmx='2g', nfiles=2)
+    vio_out += [('session loss: ' + t, p_) for (t, p_) in lvio]
     kf = [f for f in V.enabled_findings(pid) if f['id'] in known]
     V.write_evidence(pid, tier, 'model_checking', dict(
+        session_loss_histories=lexec,
         states=mcst['distinct'], transitions=mcst['generated'], traces_validated_against_impl=nexec,
         samples=[cases[0][1], cases[-1][1]], model_action_coverage=mcst['action_cov'], known_findings_fired=sorted(known), exhaustive=False,
         rule='MC_Observe: all interleavings of register / re-register / cancel / change / notify / reset for 2 clients with the counter starting below the '
              '24-bit wrap; real server: every cancel cause (Observe=1, RST to CON / NON notification, unacknowledged CON notification, error response, '
-             'resource deletion), re-registration with same and new token, 1-4 clients on 1-3 resources with and without query, bursts of changes, '
+             'resource deletion, loss of the (TCP) session with one to three observations on it), re-registration with same and new token, 1-4 clients on 1-3 resources with and without query, bursts of changes, '
              'three notification modes, counter wrap, idle periods beyond the session timeout, random histories'),
         time.time() - t0, violations=len(vio_out),
         assumptions=['several changes between two I/O steps may coalesce', 'the registration response takes part in the Observe order (>= for a re-registration)',
